@@ -43,9 +43,10 @@ def make_plan(seed, run, engine, rng, entry_index=None):
     if prob["family"]["penalty"] == "SLOPE" and "opt_strategy" in knobs:
         knobs["opt_strategy"] = "fixpoint"
     mode = choice(rng, ["new_array", "refill", "rescale"], p=[.4, .35, .25])
+    share = bool(rng.random() < 0.5)
     return dict(check="C18", level="reuse", seed=int(seed), run=int(run), engine=engine,
                 rng_seed=int(rng.integers(1 << 31)), family=prob["family"], data=prob["data"],
-                data_b=probB["data"], storage=prob["storage"], knobs=knobs, mode=mode,
+                data_b=probB["data"], storage=prob["storage"], knobs=knobs, mode=mode, share_objects=share,
                 factor=float(choice(rng, [3.0, 0.25, -2.0])), datasets=[prob["data"], probB["data"]],
                 ops=[dict(op="solver_reuse", mode=mode)])
 
@@ -78,8 +79,20 @@ def _hash(X):
     return h.hexdigest()
 
 
-def _solve(solver, X, y, fam, storage, faults=None):
-    """Fresh compiled datafit / penalty instances, initialised on (X, y)."""
+SELF_INITIALISING = ("AndersonCD", "GroupBCD", "MultiTaskBCD")    # call datafit.initialize in _solve
+
+
+def _solve(solver, X, y, fam, storage, faults=None, objects=None, keep=None):
+    """Fresh compiled datafit / penalty instances, initialised on (X, y) - or, with ``objects``,
+    the very datafit / penalty objects an earlier solve used, handed over as they are and with
+    ``run_checks=False`` (the documented way to skip the compatibility checks when the same
+    objects are reused): only for the solvers that initialise the datafit themselves."""
+    if objects is not None:
+        df, pen = objects
+        seams = Seams(faults)
+        with seams.active():
+            w, obj, stop = solver.solve(X, y, df, pen, run_checks=False)
+        return np.array(w, dtype=float), np.array(obj, dtype=float), float(stop), seams
     df = B.build_datafit(fam["datafit"], fam.get("dargs"))
     pen = B.build_penalty(fam["penalty"], fam["pargs"])
     if df is not None:
@@ -88,6 +101,8 @@ def _solve(solver, X, y, fam, storage, faults=None):
                 df.initialize_sparse(X.data, X.indptr, X.indices, y)
         elif hasattr(df, "initialize"):
             df.initialize(X, y)
+    if keep is not None:
+        keep.extend([df, pen])
     seams = Seams(faults)
     with seams.active():
         w, obj, stop = solver.solve(X, y, df, pen)
@@ -132,7 +147,8 @@ def run_plan(plan):
         before = _params(solver)
         env.seed_rng(base_seed + 1)
         try:
-            w1, o1, s1, se1 = _solve(solver, Xc, yA, fam, storage)
+            kept = []
+            w1, o1, s1, se1 = _solve(solver, Xc, yA, fam, storage, keep=kept)
             counts["solved"] += 1
             log.update(w1.tobytes() + o1.tobytes())
         except Exception as e:
@@ -167,8 +183,12 @@ def run_plan(plan):
         hx = _hash(X2)
         env.seed_rng(base_seed + 2)
         r2 = e2 = None
+        share = bool(plan.get("share_objects")) and sname in SELF_INITIALISING and len(kept) == 2 \
+            and kept[0] is not None
+        if share:
+            probes["solver_reuse_shared_datafit_penalty"] = 1
         try:
-            r2 = _solve(solver, X2, yB, fam, storage)
+            r2 = _solve(solver, X2, yB, fam, storage, objects=tuple(kept) if share else None)
         except Exception as e:
             e2 = classify_exception(e)
             if e2.get("harness"):
